@@ -452,3 +452,9 @@ def infinity():
 
 def uf(name, *args, kind="int"):
     raise RuntimeError("uf() has no native meaning; use it only in interface contracts that are stubbed natively")
+
+
+def const_map(v):
+    from replay.stubs import GhostMap
+
+    return GhostMap((), v)
